@@ -61,7 +61,7 @@ class Core(object):
     """Behaviour shared by the sync and the async in-memory transport."""
 
     def __init__(self, sim, clock, monitor=None, frag="whole", empty_rate=0.0, rng=None, writecap=None, faults=None,
-                 refuse_connect=None, budget=None, stall=None, frag_offsets=None, timeouts_cost_time=True):
+                 refuse_connect=None, budget=None, stall=None, frag_offsets=None, timeouts_cost_time=True, call_cost=None):
         self.sim = sim
         self.clock = clock
         self.monitor = monitor
@@ -75,6 +75,7 @@ class Core(object):
         self.budget = budget              # max transport calls between reset_budget() calls
         self.stall = stall                # None | 'eof' : nothing to read -> b'' instead of a timeout
         self.timeouts_cost_time = timeouts_cost_time  # False: a read that times out does not advance the virtual clock (C06: keeps a known finding's 10 s stall from hitting bystanders)
+        self.call_cost = call_cost        # virtual seconds per transport call (a slow link); default CALL_DT
         self.frag_offsets = frag_offsets  # optional set of stream offsets (device byte stream) at which reads are cut
         self.ncalls = 0
         self.calls_in_op = 0
@@ -105,7 +106,7 @@ class Core(object):
             self.log.append((k, kind, detail))
         if self.budget is not None and self.calls_in_op > self.budget:
             raise BudgetExceeded("more than %d transport calls inside one operation (last: %s)" % (self.budget, kind))
-        self.clock.advance(CALL_DT)
+        self.clock.advance(self.call_cost if self.call_cost is not None else CALL_DT)
         if self.on_call is not None:
             self.on_call(kind)
         f = None
